@@ -11,11 +11,20 @@ def parseChunks (s : String) : Option (List Bytes) :=
 def stackOf (win : Bool) (key : String) : Option (List Filter) :=
   prefStack win (if key == "-" then none else some key)
 
+def parseChk : String → Option SizeCheck
+  | "off" => some .off
+  | "filtered" => some .filtered
+  | "raw" => some .raw
+  | _ => none
+
 /-- `lf c` | `crlf c` | `glf c` (converters on one content) |
 `out win key chunks` | `in win key content` | `rt win key content`
 (read back what was written) | `stat win key disk` (`stat_and_sha1`: the
 reported `st_size` and the text that is hashed) | `chg win key content`
-(does a fresh checkout of `content` report a change; the hash is the identity);
+(does a fresh checkout of `content` report a change; the hash is the identity) |
+`cmp chk win key content disk` (`file_content_matches` of a revision tree that
+records `content` and a working file with bytes `disk`; `chk` = `off` (the
+code) | `filtered` | `raw`: the optional size shortcut; the hash is the identity);
 key `-` = no `eol` preference for the path; unknown key ↦ `E:BzrError` -/
 def handle : List String → String
   | ["lf", c] => match fromHex c with
@@ -62,6 +71,13 @@ def handle : List String → String
       | some st => showBool (reportsChange id st c (writeOut st c))
       | none => "E:BzrError"
     | _, _ => "bad-op"
+  | ["cmp", chk, win, key, c, d] =>
+    match parseChk chk, parseBool win, fromHex c, fromHex d with
+    | some chk, some win, some c, some d =>
+      match stackOf win key with
+      | some st => showBool (contentMatches id chk st c.length c d)
+      | none => "E:BzrError"
+    | _, _, _, _ => "bad-op"
   | _ => "bad-op"
 
 end BreezyVerif.C45
